@@ -86,6 +86,10 @@ def decide(test, ctx):
             known = ctx.letter if left.attr == 'xtype' else ctx.attrs.get(left.attr)
             if known is None:
                 return None
+            if isinstance(right, ast.Name) and ctx.module in ctx.repo.modules:
+                g = ctx.repo.modules[ctx.module].globals_assigned.get(right.id)
+                if isinstance(g, (ast.Constant, ast.Tuple, ast.List)):
+                    right = g                      # a module-level constant naming the letter group
             if isinstance(op, (ast.In, ast.NotIn)):
                 if isinstance(right, ast.Constant) and isinstance(right.value, str):
                     members = list(right.value)
@@ -123,7 +127,8 @@ class Leaf:
                     if isinstance(a, ast.Name) and a.id in var or \
                             (isinstance(a, ast.Attribute) and isinstance(a.value, ast.Name)
                              and a.value.id in var):
-                        out.append(ntext(n.func.value))
+                        c = ntext(n.func.value)
+                        out.append(getattr(self, 'calias', {}).get(c, c))
         return out
 
     def delegates(self, var):
@@ -155,7 +160,9 @@ def dispatch(stmts, ctx, top_level_skip=False, _path=None, _depth=0):
                     continue                       # guard
                 if _depth == 0 and top_level_skip:
                     continue
-                return Leaf(stmts[i:], path)
+                lf = Leaf(stmts[i:], path)
+                lf.calias = dict(getattr(ctx, 'calias', {}))
+                return lf
             branch = st.body if v else st.orelse
             sub = dispatch(branch, ctx, top_level_skip, path + [(ntext(st.test), v)], _depth + 1)
             if sub is not None:
@@ -163,16 +170,30 @@ def dispatch(stmts, ctx, top_level_skip=False, _path=None, _depth=0):
             continue
         if isinstance(st, ast.Pass):
             continue
+        if isinstance(st, ast.For) and isinstance(st.target, ast.Name) and st.target.id.startswith('once__h'):
+            # the one-iteration loop an inlined helper with early returns is spliced as
+            sub = dispatch(st.body, ctx, top_level_skip, path, _depth + 1)
+            if sub is not None:
+                return sub
+            continue
         if isinstance(st, ast.Assign) and len(st.targets) == 1 and isinstance(st.targets[0], ast.Name) \
                 and isinstance(st.value, ast.Name) and st.value.id in ctx.vars:
             ctx.vars.add(st.targets[0].id)         # plain alias of the dispatched object
+            continue
+        if isinstance(st, ast.Assign) and len(st.targets) == 1 and isinstance(st.targets[0], ast.Name) \
+                and (is_self_attr(st.value) or isinstance(st.value, ast.Name)) and _depth > 0:
+            if not hasattr(ctx, 'calias'):
+                ctx.calias = {}
+            ctx.calias[st.targets[0].id] = ntext(st.value)      # target = self.aux_ipc: alias of a container
             continue
         if _depth == 0 and top_level_skip:
             continue
         if isinstance(st, (ast.Assign, ast.Expr)) and any(
                 isinstance(later, ast.If) and decide(later.test, ctx) is not None for later in stmts[i + 1:]):
             continue        # a computation shared by the arms of a decidable chain that follows
-        return Leaf(stmts[i:], path)
+        lf = Leaf(stmts[i:], path)
+        lf.calias = dict(getattr(ctx, 'calias', {}))
+        return lf
     return None
 
 
